@@ -433,12 +433,13 @@ def run(chk, prog):
                 # plain wrap must be on the None edge: not dominated by accept, and accept's Some edge must not reach it
             # accept must be dominated by a Some edge of the acceptor option
             some_ok = False
-            for b in g.reachable:
-                t = g.term(b)
-                if t and t["k"] == "switch":
-                    for v, tb in t["ts"]:
-                        if v == 1 and edge_dominates(g, b, tb, acc[0].bb) and all(m.bb not in g.reach_from([tb]) for m in plain):
-                            some_ok = True
+            from ..flow import option_tests as _ot
+            for o in _ot(g):
+                if o["kind"] not in ("Option", "?"):
+                    continue
+                b, tb = o["pos"]
+                if edge_dominates(g, b, tb, acc[0].bb) and all(m.bb not in g.reach_from([tb]) for m in plain):
+                    some_ok = True
             ok = ok and some_ok
         chk.instance("tls-accept", "%s:%s" % (g.file, g.line), "%s: with TLS configured only the accepted TLS stream is used" % g.path, ok, why)
         if not ok:
